@@ -101,5 +101,10 @@ func init() {
 		skelTarget{Name: "C06.taskHandleHookRun", File: "pkg/shell-operator/operator.go", Recv: "ShellOperator", Func: "taskHandleHookRun",
 			Fields: []string{"Status", "ExecuteOnSynchronization", "Version", "Group", "AllowFailure", "MonitorIDs", "BindingContext"},
 			Calls:  []string{"IsSynchronization", "combineBindingContextForHook", "handleRunHook", "UnlockKubernetesEventsFor", "UpdateMetadata", "RateLimitWait"}},
+		// the loop Model/Startup `enableBindings` follows: every attempt walks over all bindings from the first one
+		skelTarget{Name: "kubernetesBindingsController.EnableKubernetesBindings", File: "pkg/hook/controller/kubernetes_bindings_controller.go",
+			Recv: "kubernetesBindingsController", Func: "EnableKubernetesBindings",
+			Fields: []string{"KubernetesBindings"},
+			Calls:  []string{"AddMonitor", "HasMonitor", "GetMonitor", "StartMonitor", "StopMonitor", "setBindingMonitorLinks", "getBindingMonitorLinksById", "HandleEvent"}},
 	)
 }
